@@ -52,6 +52,8 @@ pub use crate::walk::{
     DirEntry, ParallelVisitor, ParallelVisitorBuilder, Walk, WalkBuilder,
     WalkParallel, WalkState,
 };
+#[cfg(feature = "verif-hooks")]
+pub use crate::walk::verif as walk_verif;
 
 mod default_types;
 mod dir;
